@@ -210,6 +210,37 @@ def replay_history(kind, hist):
     return diffs
 
 
+def replay_branching(hist):
+    """Step a real BranchingModel through one TLC-generated history; return the first difference or None."""
+    from kaira.models.generic import BranchingModel
+    m = BranchingModel()
+    ran = []
+    for idx, (op, n, c, raised, sel) in enumerate(hist):
+        got_raised, got_sel = False, ""
+        try:
+            if op == "add":
+                m.add_branch(n, condition=(lambda x, c=c: torch.tensor(c) if idx % 2 else c), model=(lambda x, n=n: ran.append(n) or n))
+            elif op == "remove":
+                m.remove_branch(n)
+            elif op == "default":
+                m.set_default_branch(lambda x: ran.append("default") or "default")
+            else:
+                del ran[:]
+                out = m("x", return_branch=True)
+                got_sel = out[1] if isinstance(out, tuple) else "?"
+                if ran != [got_sel] or out[0] != got_sel:
+                    return idx, "ran_exactly_the_selected_branch", [sel], list(ran)
+        except (ValueError, KeyError, RuntimeError):
+            got_raised = True
+            if op == "run":
+                got_sel = "error"
+        if got_raised != raised:
+            return idx, "raises_as_the_model", raised, got_raised
+        if op == "run" and got_sel != sel:
+            return idx, "first_true_branch_in_insertion_order", sel, got_sel
+    return None
+
+
 # ------------------------------------------------------------------------------ direct model runs
 def seq_events(rng, tier):
     from kaira.models.channel_code import ChannelCodeModel
@@ -380,7 +411,16 @@ def mac_events(rng, tier):
             if U >= 2:
                 patterns.append([1] * U)                            # one encoder instance shared by every user
             if U >= 3:
-                patterns += [[1, 1] + list(range(2, U)), list(range(1, U)) + [U - 1]]    # partially shared lists
+                # every partially shared list: all assignments of up to 3 encoder instances to the users (normalised to first-use order)
+                seenp = set()
+                for pat in itertools.product(range(1, 4), repeat=U):
+                    ren, norm = {}, []
+                    for v in pat:
+                        ren.setdefault(v, len(ren) + 1)
+                        norm.append(ren[v])
+                    if tuple(norm) not in seenp and 1 < len(ren) < U:
+                        seenp.add(tuple(norm))
+                        patterns.append(norm)
             for pat in patterns:
                 calls, enc_out, box = [], [], []
                 pool = {i: Enc(i, calls, enc_out) for i in set(pat)}
@@ -517,6 +557,28 @@ def run(run):
                             "history replay disagrees with the Pipelines list model")
     run.sample({"history": hists[len(hists) // 2]})
     run.log("%d histories x 3 model kinds replayed" % len(hists))
+
+    # --- (B) branching histories (add / remove / set default / run) exported by TLC ------------------
+    bl = 4 if quick else 5
+    rb = tlc.run("MC_Branching", 'CONSTANTS Names = {"a","b","c"}\nMaxLen = %d\nExport = TRUE\nSPECIFICATION Spec\nCHECK_DEADLOCK FALSE\nINVARIANT NoDuplicates\n'
+                 'INVARIANT SelectedIsFirstTrue\nINVARIANT ExportInv\n' % bl, workers=1, timeout=900)
+    if not rb.ok:
+        raise tlc.TLCFailure("MC_Branching: %s %s" % (rb.errors, rb.violated))
+    run.add_tlc("MC_Branching MaxLen=%d" % bl, rb)
+    bh = [h[1] for h in rb.tuples("BHIST")]
+    if len(bh) != 11 ** (bl - 1):
+        raise tlc.TLCFailure("branching export incomplete: %d" % len(bh))
+    badb = False
+    for h in bh:
+        d = replay_branching(h)
+        run.traces += 1
+        run.case(("branching", tuple((x[0], x[1], x[2]) for x in h)), nontrivial=True)
+        if d and not badb:
+            badb = True
+            run.violate("BranchingModel", d[1], {"kind": "Branching"}, {"history": h, "step": d[0], "expected": d[2], "observed": d[3]},
+                        "history replay disagrees with Branching.tla")
+    run.sample({"branching_history": bh[len(bh) // 2]})
+    run.log("%d branching histories replayed" % len(bh))
 
     # --- (C) direct runs validated by TLC ------------------------------------------------------
     evs = seq_events(rng, run.tier) + branch_events(rng, run.tier) + feedback_events(rng, run.tier) + \
